@@ -42,6 +42,7 @@ THEOREMS = [
     "Nix.C18.C18_idempotent",
     "Nix.C18.C18_writable",
     "Nix.C18.C18_safe_to_repeat",
+    "Nix.C18.C18_stale_list_resumes",
     "Nix.C18.C18_content_partial",
     "Nix.C18.C18_content_counterexample",
     "Nix.C18.C18_shape_collect",
